@@ -31,6 +31,8 @@ func promReadBody(metric string, withName bool) []byte {
 	return snappy.Encode(nil, b)
 }
 
+const scratchDB = "scratchdb"
+
 const promTS = int64(1700000000) * 1000 // ms
 
 func other(db string) string {
@@ -73,18 +75,15 @@ func isPublic(r RouteInfo) bool {
 // queryVariants: statement kinds for the query endpoint.
 func (e *Env) queryVariants(method string) []Req {
 	var out []Req
+	n := e.next()
 	mk := func(kind, db, q, need string) *Req {
-		r := Req{Method: method, Pattern: "/query", Path: "/query", Query: map[string]string{"q": q}, Kind: kind, Text: q, Need: need, Form: method == "POST"}
+		r := Req{Method: method, Pattern: "/query", Path: "/query", Query: map[string]string{"q": q}, Kind: kind, Text: q, Need: need, Form: method == "POST", N: n}
 		if db != "" {
 			r.Query["db"] = db
-		}
-		if method == "GET" && !strings.HasPrefix(kind, "read") && !strings.HasPrefix(kind, "show") {
-			r.AdminMayFail = true // GET is read-only
 		}
 		out = append(out, r)
 		return &out[len(out)-1]
 	}
-	n := e.next()
 	for _, db := range dbs {
 		o := other(db)
 		// read
@@ -104,9 +103,7 @@ func (e *Env) queryVariants(method string) []Req {
 		// write-into
 		tgt := fmt.Sprintf("into_%d", n)
 		r = mk("select_into", db, fmt.Sprintf("SELECT v INTO %s.autogen.%s FROM %s.autogen.probe", db, tgt, db), "rw:"+db+":"+db)
-		r.Cleanup = []Req{qReq(db, "DROP MEASUREMENT "+tgt)}
 		r = mk("select_into_cross", db, fmt.Sprintf("SELECT v INTO %s.autogen.%sx FROM %s.autogen.probe", o, tgt, db), "rw:"+db+":"+o)
-		r.Cleanup = []Req{qReq(o, "DROP MEASUREMENT "+tgt+"x")}
 		// multi-statement: an allowed read followed by something the reader may not do
 		victim := fmt.Sprintf("victim_%d_%s", n, db)
 		r = mk("multi_read_then_ddl", db, "SELECT count(v) FROM probe; DROP DATABASE "+victim, "admin")
@@ -114,12 +111,11 @@ func (e *Env) queryVariants(method string) []Req {
 		r.Cleanup = []Req{qReq("", "DROP DATABASE "+victim)}
 		// data-level DDL
 		vm := fmt.Sprintf("vm_%d", n)
-		r = mk("ddl_drop_measurement", db, "DROP MEASUREMENT "+vm, "admin")
-		r.Setup = []Req{writeReq(db, fmt.Sprintf("%s,host=a v=1 %d", vm, tsBase))}
-		r = mk("ddl_delete", db, "DELETE FROM ctldel WHERE time < 1000", "write:"+db)
-		r.Setup = []Req{writeReq(db, fmt.Sprintf("ctldel,host=a v=1 %d", tsBase))}
+		if db == "db1" { // on the scratch database: the background removal of a measurement disturbs reads of its database for a moment
+			r = mk("ddl_drop_measurement", scratchDB, "DROP MEASUREMENT "+vm, "admin")
+			r.Setup = []Req{writeReq(scratchDB, fmt.Sprintf("%s,host=a v=1 %d", vm, tsBase))}
+		}
 		r = mk("ddl_drop_series", db, "DROP SERIES FROM ctldel WHERE host = 'zz'", "write:"+db)
-		r.Setup = []Req{writeReq(db, fmt.Sprintf("ctldel,host=a v=1 %d", tsBase))}
 		rp := fmt.Sprintf("rp_%d", n)
 		r = mk("ddl_create_rp", "", fmt.Sprintf("CREATE RETENTION POLICY %s ON %s DURATION 2d REPLICATION 1", rp, db), "admin")
 		r.Cleanup = []Req{qReq("", fmt.Sprintf("DROP RETENTION POLICY %s ON %s", rp, db))}
@@ -146,8 +142,6 @@ func (e *Env) queryVariants(method string) []Req {
 	mk("show_users", "", "SHOW USERS", "admin")
 	mk("show_grants", "", "SHOW GRANTS FOR "+uRd1, "admin")
 	mk("show_shards", "", "SHOW SHARDS", "admin")
-	mk("show_stats", "", "SHOW STATS", "admin")
-	mk("show_diagnostics", "", "SHOW DIAGNOSTICS", "admin")
 	mk("show_subscriptions", "", "SHOW SUBSCRIPTIONS", "admin")
 	mk("show_configs", "", "SHOW CONFIGS", "admin")
 	// user administration
@@ -175,11 +169,13 @@ func (e *Env) queryVariants(method string) []Req {
 func (e *Env) variants(rt RouteInfo) []Req {
 	n := e.next()
 	base := func(kind, need string, q map[string]string) Req {
-		return Req{Method: rt.Method, Pattern: rt.Pattern, Path: rt.Pattern, Query: q, Kind: kind, Need: need}
+		return Req{Method: rt.Method, Pattern: rt.Pattern, Path: rt.Pattern, Query: q, Kind: kind, Need: need, N: n}
 	}
 	var out []Req
 	p := rt.Pattern
-	ts := tsBase + int64(1000+n)*1e9
+	// every generated timestamp stays inside the shard group of the fixture rows (2023-11-09..16): a series that is new to a
+	// shard group becomes visible to queries only after the index flush, which would look like a late side effect
+	ts := tsBase + int64(1000+n%30000)*1e9
 	switch {
 	case isPublic(rt):
 		r := base("status", "public", nil)
@@ -191,15 +187,20 @@ func (e *Env) variants(rt RouteInfo) []Req {
 		out = append(out, r)
 	case p == "/query":
 		out = e.queryVariants(rt.Method)
+		if e.Logkeep {
+			out = catalogueOnly(out)
+		}
 	case p == "/write":
 		for _, db := range dbs {
 			lp := fmt.Sprintf("probe,host=a v=%d %d", n, ts)
 			r := base("write", "write:"+db, map[string]string{"db": db})
 			r.Body64, r.Text = b64b([]byte(lp)), lp
+			r.Targets = []Target{{DB: db, Q: fmt.Sprintf("SELECT v FROM probe WHERE time = %d", ts)}}
 			out = append(out, r)
 			r = base("write_rp_precision", "write:"+db, map[string]string{"db": db, "rp": "autogen", "precision": "s"})
-			lp = fmt.Sprintf("probe,host=a v=%d %d", n, ts/1e9+500000)
+			lp = fmt.Sprintf("probe,host=a v=%d %d", n, ts/1e9+40000) // same shard group as the fixture rows (no new index entry)
 			r.Body64, r.Text = b64b([]byte(lp)), lp
+			r.Targets = []Target{{DB: db, Q: fmt.Sprintf("SELECT v FROM probe WHERE time = %d", (ts/1e9+40000)*1e9)}}
 			out = append(out, r)
 		}
 	case p == "/api/v2/write":
@@ -207,9 +208,12 @@ func (e *Env) variants(rt RouteInfo) []Req {
 			lp := fmt.Sprintf("probe,host=a v=%d %d", n, ts+1)
 			r := base("write_v2", "write:"+db, map[string]string{"bucket": db + "/autogen", "org": "c19"})
 			r.Body64, r.Text = b64b([]byte(lp)), lp
+			r.Targets = []Target{{DB: db, Q: fmt.Sprintf("SELECT v FROM probe WHERE time = %d", ts+1)}}
 			out = append(out, r)
 			r = base("write_v2_bucket_only", "write:"+db, map[string]string{"bucket": db})
+			lp = fmt.Sprintf("probe,host=a v=%d %d", n, ts+2)
 			r.Body64, r.Text = b64b([]byte(lp)), lp
+			r.Targets = []Target{{DB: db, Q: fmt.Sprintf("SELECT v FROM probe WHERE time = %d", ts+2)}}
 			out = append(out, r)
 		}
 	case p == "/api/v2/query":
@@ -221,8 +225,13 @@ func (e *Env) variants(rt RouteInfo) []Req {
 		for _, db := range dbs {
 			r := base("prom_write", "write:"+db, map[string]string{"db": db})
 			r.Path = fillPath(p, map[string]string{"metric_store": metricStore})
-			r.Body64 = b64b(promWriteBody(promMetric, promTS+int64(n)*1000, true))
+			r.Body64 = b64b(promWriteBody(promMetric, promTS+int64(n%30000)*1000, true))
 			r.CT = "application/x-protobuf"
+			mst := promMetric
+			if strings.Contains(p, "{metric_store}") {
+				mst = metricStore
+			}
+			r.Targets = []Target{{DB: db, Q: fmt.Sprintf("SELECT count(*) FROM %s WHERE time = %d", mst, (promTS+int64(n%30000)*1000)*1e6)}}
 			out = append(out, r)
 		}
 	case p == "/api/v1/read" || p == "/prometheus/{metric_store}/api/v1/read":
@@ -343,7 +352,7 @@ func (e *Env) logVariants(rt RouteInfo, n int) []Req {
 		if _, ok := vals["logStream"]; !ok {
 			vals["logStream"] = streamName
 		}
-		out = append(out, Req{Method: rt.Method, Pattern: p, Path: fillPath(p, vals), Query: q, Kind: kind, Need: need})
+		out = append(out, Req{Method: rt.Method, Pattern: p, Path: fillPath(p, vals), Query: q, Kind: kind, Need: need, N: n})
 		return &out[len(out)-1]
 	}
 	step := func(method, path string) Req {
